@@ -9,12 +9,29 @@ All theorems about runs quantify over: every preference list, both transport kin
 (one per line handled), and every list of reads `chunks` - i.e. every sequence of server bytes split
 into reads in every possible way.  `(clientRun pref unix envAt chunks).trace` is what can be observed:
 N (NUL byte), recv l (a line handed to the authenticator), send l (a line written), close, authenticated.
+
+Readings and explicit assumptions (also in notes/C07.md):
+* "valid hexadecimal GUID" (`OkLine`) := what `binascii.unhexlify` accepts after `bytes.strip()`: a
+  non-empty, even number of hex digits.  The length of the GUID (32 digits in DBus) is not demanded.
+  `OkLine`/`FdAnswer` use the helpers `splitCmd`/`strip` of ClientBytes.lean ("first word", "blanks removed");
+  these helpers are shared with the code model and validated against Python only by the streams.
+* The environment of the cookie step is a total function (`Env`): `os.stat` and `open(...).read()` return or
+  fail, they do not block.  With the context-name test of `_authGetDBusCookie` (`contextOk`, repair C07-05)
+  only a plain file name inside the keyring directory is ever opened; that reading a regular file there
+  terminates is an assumption of every no-stall statement below.
+* "any spec-conforming server" in the completion theorems is the reference server of
+  Auth/SpecServerRef.lean: one deterministic server per configuration (accepted mechanisms, answer to the
+  descriptor negotiation, GUID = `hexlify` of any non-empty id, cookie, challenge, hash).  Conforming
+  behaviours outside this family (upper-case GUID text, several DATA rounds for EXTERNAL) are not covered by
+  the theorem; the line streams of the harness exercise them on the implementation.
 -/
 import TxdbusModel.Proofs.Auth.ClientSafety
 import TxdbusModel.Proofs.Auth.ClientTraces
 import TxdbusModel.Proofs.Auth.ClientLiveness
 import TxdbusModel.Proofs.Auth.ClientComplete
 import TxdbusModel.Proofs.Auth.ClientStrict
+import TxdbusModel.Proofs.Auth.ClientFraming
+import TxdbusModel.Proofs.Auth.ClientCompleteBytes
 import TxdbusModel.Auth.ClientOrig
 
 namespace Txdbus.AuthClient
@@ -29,6 +46,20 @@ theorem preference_nodup : Gen.ClientAuth.preference.Nodup := by decide
 theorem authDelimiter_table : Gen.ClientAuth.authDelimiter = CRLF := by decide
 
 theorem maxAuthLength_table : Gen.ClientAuth.maxAuthLength = 16384 := by decide
+
+/-- The words `W` for which `ClientAuthenticator` has a handler `_auth_W` (read from the class with `dir()`)
+are exactly the five command words the model dispatches on (`handleAuthMessage`, `serverWords`): a new
+handler in the source breaks this lemma. -/
+theorem handlerWords_table :
+    Gen.ClientAuth.handlerWords = [b!"AGREE_UNIX_FD", b!"DATA", b!"ERROR", b!"OK", b!"REJECTED"] ∧
+    (∀ w, w ∈ Gen.ClientAuth.handlerWords ↔ w ∈ serverWords) := by
+  have h : Gen.ClientAuth.handlerWords = [b!"AGREE_UNIX_FD", b!"DATA", b!"ERROR", b!"OK", b!"REJECTED"] := by decide
+  refine ⟨h, fun w => ?_⟩
+  rw [h]
+  simp only [serverWords, List.mem_cons, List.not_mem_nil, or_false]
+  constructor
+  · rintro (h | h | h | h | h) <;> simp [h]
+  · rintro (h | h | h | h | h) <;> simp [h]
 
 /-! ## 1. BEGIN only after OK (and after the descriptor negotiation on UNIX transports) -/
 
@@ -86,6 +117,21 @@ theorem each_mechanism_at_most_once (unix : Bool) (envAt : Nat → Env) (chunks 
   have h := mechanisms_once_in_order Gen.ClientAuth.preference unix envAt chunks
   exact ⟨_, h.2.1, (List.take_sublist _ _).nodup preference_nodup⟩
 
+/-- "Moves on after REJECTED or ERROR": in an open, unauthenticated state with a mechanism `m` left, the line
+REJECTED - or ERROR outside the descriptor negotiation - (of admissible length) keeps the connection open
+and makes the client write exactly the AUTH line of `m`, the next mechanism of the preference list. -/
+theorem moves_on_after_rejected_or_error (envAt : Nat → Env) (p : Proto) (l m : Bytes) (rest : List Bytes)
+    (hopen : p.disconnecting = false) (hunauth : p.authenticated = false ∧ p.auth.authenticated = false)
+    (hlen : l.length ≤ maxAuth) (hbuf : p.buffer.length ≤ maxAuth + 1)
+    (hleft : p.auth.authOrder = m :: rest)
+    (hline : (splitCmd l).1 = b!"REJECTED" ∨ ((splitCmd l).1 = b!"ERROR" ∧ p.auth.negotiating = false)) :
+    let p' := processLines envAt p [l]
+    p'.disconnecting = false ∧ p'.authenticated = false ∧
+      sends p'.trace = sends p.trace ++ [authLine (envAt p.seen) m] ∧ IsOfferOf (authLine (envAt p.seen) m) m ∧
+      p'.auth.authOrder = rest ∧ p'.auth.authMech = some m := by
+  have h := processLines_moves_on envAt p l m rest hopen hunauth.1 hunauth.2 hlen hbuf hleft hline
+  exact ⟨h.1, h.2.1, h.2.2.1, authLine_isOffer _ m, h.2.2.2.1, h.2.2.2.2⟩
+
 /-! ## 3. No stall -/
 
 /-- For every open, unauthenticated state and every server line: the step closes the connection
@@ -102,6 +148,38 @@ theorem no_stall (envAt : Nat → Env) (p : Proto) (l : Bytes)
 theorem no_stall_run (pref : List Bytes) (unix : Bool) (envAt : Nat → Env) (chunks : List Bytes) :
     ReactsToEveryLine (clientRun pref unix envAt chunks).trace :=
   (invT_clientRun pref unix envAt chunks).reacts
+
+/-- No complete line stays in the buffer: after any reads, split anywhere, the line buffer of the client
+contains no delimiter - every complete line received so far was split off and went through the loop of
+`dataReceived` (where `no_stall_run` applies to it).  This is the statement seeded change C07b breaks. -/
+theorem no_complete_line_buffered (pref : List Bytes) (unix : Bool) (envAt : Nat → Env) (chunks : List Bytes) :
+    hasCRLF (clientRun pref unix envAt chunks).buffer = false :=
+  clientRun_buffer_noCRLF pref unix envAt chunks
+
+/-- The framing itself does not depend on the reads: the lines split off from `a ++ b` arriving at once are
+the lines of `a` followed by the lines of (what remained of `a`) ++ `b`, with the same final remainder. -/
+theorem framing_independent_of_reads (a b : Bytes) :
+    splitCRLF (a ++ b) =
+      ((splitCRLF a).1 ++ (splitCRLF ((splitCRLF a).2 ++ b)).1, (splitCRLF ((splitCRLF a).2 ++ b)).2) :=
+  splitCRLF_append a b
+
+/-- A server line (no delimiter inside, within the length limit) delivered in ANY pieces - one read, byte by
+byte, a read boundary inside the delimiter, empty reads in between - to a connection with an empty line
+buffer has exactly the effect of the line arriving whole (`lineReceived`): it is handed to the authenticator
+once, when its delimiter is complete. -/
+theorem line_delivered_in_pieces (envAt : Nat → Env) (p : Proto) (l : Bytes) (pieces : List Bytes)
+    (hbuf : p.buffer = []) (hl : hasCRLF l = false) (hlen : l.length ≤ maxAuth)
+    (hpieces : pieces.flatten = l ++ CRLF) :
+    pieces.foldl (dataReceived envAt) p = lineReceived envAt p l := by
+  by_cases ha : p.authenticated = true
+  · rw [foldl_binary envAt pieces p ha, hpieces]
+    unfold lineReceived
+    simp [ha]
+  · have ha' : p.authenticated = false := by simpa using ha
+    have := deliver_line envAt l hl hlen pieces p ha' (by rw [hbuf, hpieces]; rfl) (by rw [hbuf]; simp [CRLF])
+    have hp : ({ p with buffer := [] } : Proto) = p := by cases p; simp_all
+    rw [hp] at this
+    exact this
 
 /-! ## 4. Exhaustion and lines outside the protocol close the connection -/
 
@@ -182,6 +260,47 @@ theorem completes_against_spec_server (unix : Bool) (cfg : SpecServer.Cfg) (env 
           · rw [h3] at h; cases h
           · exact h.2
         exact completes_cookie unix cfg env guid hg hgx hgl h1 h2 hc
+
+/-- The same at the level of bytes and for EVERY delivery: however each answer of the reference server
+(line + delimiter) is cut into reads - `cut` is any function with `(cut x).flatten = x` - the composition
+through `dataReceived` is the line-level composition (`handshakeBytes_eq`) and completes in the same cases. -/
+theorem completes_against_spec_server_bytes (cut : Bytes → List Bytes) (hcut : ∀ x, (cut x).flatten = x)
+    (unix : Bool) (cfg : SpecServer.Cfg) (env : Env) (guid : Bytes)
+    (hguid : guid ≠ [] ∧ cfg.guidHex = hexlify guid ∧ 2 * guid.length + 3 ≤ maxAuth)
+    (hchallenge : cfg.accepts .cookie = true →
+      5 + 2 * (cfg.cookieCtx.length + 1 + (cfg.cookieId.length + 1 + cfg.challenge.length)) ≤ maxAuth)
+    (haccepts : cfg.accepts .external = true ∨ cfg.accepts .anonymous = true ∨
+      (cfg.accepts .cookie = true ∧ CookieUsable cfg env)) :
+    Completed (handshakeBytes cut Gen.ClientAuth.preference unix cfg (fun _ => env) 16) := by
+  have hf : ServerLinesFit cfg := by
+    constructor
+    · refine ⟨hasCRLF_of_no_cr ?_, ?_⟩
+      · intro b hb
+        simp only [SpecServer.okLine, hguid.2.1, List.mem_append, List.mem_cons, List.not_mem_nil, or_false] at hb
+        rcases hb with (rfl | rfl | rfl) | hb
+        · decide
+        · decide
+        · decide
+        · exact no_cr_hexlify _ b hb
+      · simp only [SpecServer.okLine, hguid.2.1, List.length_append, hexlify_length, List.length_cons,
+          List.length_nil]
+        omega
+    · intro hc
+      refine ⟨hasCRLF_of_no_cr ?_, ?_⟩
+      · intro b hb
+        simp only [List.mem_append, List.mem_cons, List.not_mem_nil, or_false] at hb
+        rcases hb with (rfl | rfl | rfl | rfl | rfl) | hb
+        · decide
+        · decide
+        · decide
+        · decide
+        · decide
+        · exact no_cr_hexlify _ b hb
+      · have := hchallenge hc
+        simp only [List.length_append, hexlify_length, List.length_cons, List.length_nil, joinWith]
+        omega
+  rw [handshakeBytes_eq cut hcut hf]
+  exact completes_against_spec_server unix cfg env guid hguid hchallenge haccepts
 
 /-! ## The hypotheses are satisfiable -/
 
@@ -267,19 +386,25 @@ end Txdbus.AuthClient
 #print axioms Txdbus.AuthClient.preference_nodup
 #print axioms Txdbus.AuthClient.authDelimiter_table
 #print axioms Txdbus.AuthClient.maxAuthLength_table
+#print axioms Txdbus.AuthClient.handlerWords_table
 #print axioms Txdbus.AuthClient.begin_only_after_ok
 #print axioms Txdbus.AuthClient.begin_only_after_ok_of_current_mechanism
 #print axioms Txdbus.AuthClient.authenticated_iff_begin
 #print axioms Txdbus.AuthClient.OfferedInOrder.length_eq
 #print axioms Txdbus.AuthClient.mechanisms_once_in_order
 #print axioms Txdbus.AuthClient.each_mechanism_at_most_once
+#print axioms Txdbus.AuthClient.moves_on_after_rejected_or_error
 #print axioms Txdbus.AuthClient.no_stall
 #print axioms Txdbus.AuthClient.no_stall_run
+#print axioms Txdbus.AuthClient.no_complete_line_buffered
+#print axioms Txdbus.AuthClient.framing_independent_of_reads
+#print axioms Txdbus.AuthClient.line_delivered_in_pieces
 #print axioms Txdbus.AuthClient.exhaustion_closes
 #print axioms Txdbus.AuthClient.exhausted_iff_all_offered
 #print axioms Txdbus.AuthClient.unknown_line_closes
 #print axioms Txdbus.AuthClient.silent_after_close
 #print axioms Txdbus.AuthClient.completes_against_spec_server
+#print axioms Txdbus.AuthClient.completes_against_spec_server_bytes
 #print axioms Txdbus.AuthClient.prefix_model_agree_before_ok_begins
 #print axioms Txdbus.AuthClient.prefix_model_error_after_negotiate_tries_next
 #print axioms Txdbus.AuthClient.prefix_model_cookie_always_error
